@@ -8,7 +8,7 @@
     contradicts the property; 3 = both. *)
 From Coq Require Import List Arith Bool.
 Import ListNotations.
-From TI Require Import lib.Sched model.Locks.
+From TI Require Import lib.Sched model.Locks model.LocksSpec.
 
 Definition lcode (l : lref) : nat := match l with LT => 0 | LM => 1 end.
 
@@ -62,36 +62,42 @@ Definition model_trace (c : lcase) (sgl : bool) : list (nat * list nat) :=
   map (fun te => (fst te, enc_event (snd te)))
       (rev (log (run_sched (macro (cfg_of c sgl)) (init (prog_of c)) (l_sched c)))).
 
-(** ** the property on an observed trace *)
+(** ** the property on an observed trace: the judge of [model/LocksSpec.v], which is
+    proved to accept every trace of the model ([C14_trace_accepted]) *)
 
-(** body depth per thread *)
-Fixpoint mutex_ok (depth : nat -> nat) (tids : list nat) (tr : list (nat * list nat)) : bool :=
-  match tr with
-  | [] => true
-  | (t, [3]) :: r =>
-    forallb (fun u => Nat.eqb u t || Nat.eqb (depth u) 0) tids
-    && mutex_ok (upd depth t (S (depth t))) tids r
-  | (t, [4]) :: r => mutex_ok (upd depth t (pred (depth t))) tids r
-  | _ :: r => mutex_ok depth tids r
+Definition dec_lref (n : nat) : option lref :=
+  match n with 0 => Some LT | 1 => Some LM | _ => None end.
+
+Definition dec_event (l : list nat) : option event :=
+  match l with
+  | [1; c] => option_map EAcq (dec_lref c)
+  | [2; c] => option_map ERel (dec_lref c)
+  | [3] => Some EEnter
+  | [4] => Some EExit
+  | [5; n] => Some (EWrite n)
+  | [6; u; n] => Some (EReply u n)
+  | [7] => Some ESwap
+  | [8; c] => Some (EStart c)
+  | _ => None
   end.
 
-(** every reply read by [t] answers the request [t] wrote last *)
-Fixpoint replies_ok (last : nat -> option nat) (tr : list (nat * list nat)) : bool :=
+Fixpoint dec_trace (tr : list (nat * list nat)) : option (list (nat * event)) :=
   match tr with
-  | [] => true
-  | (t, [5; n]) :: r => replies_ok (upd last t (Some n)) r
-  | (t, [6; u; n]) :: r =>
-    Nat.eqb u t && match last t with Some m => Nat.eqb m n | None => false end
-    && replies_ok (upd last t None) r
-  | _ :: r => replies_ok last r
+  | [] => Some []
+  | (t, l) :: r =>
+    match dec_event l, dec_trace r with
+    | Some e, Some r' => Some ((t, e) :: r')
+    | _, _ => None
+    end
   end.
 
-Definition tids_of (c : lcase) : list nat := map (fun x => fst (fst x)) (l_threads c).
+(** an observed trace that is not even made of events cannot equal the model's (code 1) *)
+Definition obs_ok (tr : list (nat * list nat)) : bool :=
+  match dec_trace tr with Some t => accepts t | None => true end.
 
 Definition check (c : lcase) : nat :=
   (if tr_eqb (l_obs c) (model_trace c false) then 0 else 1)
-  + (if mutex_ok (fun _ => 0) (tids_of c) (l_obs c) && replies_ok (fun _ => None) (l_obs c)
-     then 0 else 2).
+  + (if obs_ok (l_obs c) then 0 else 2).
 
 Fixpoint index_from {A} (n : nat) (l : list A) : list (nat * A) :=
   match l with [] => [] | x :: r => (n, x) :: index_from (S n) r end.
@@ -99,11 +105,12 @@ Fixpoint index_from {A} (n : nat) (l : list A) : list (nat * A) :=
 Definition bad (cases : list lcase) : list (nat * nat) :=
   filter (fun p => negb (Nat.eqb (snd p) 0)) (index_from 0 (map check cases)).
 
-(** how many schedules would break mutual exclusion in the single-[with] variant
-    (reported in the histogram: the schedules do exercise the race) *)
+(** which schedules would break the property in the single-[with] variant (reported in
+    the histogram: the schedules do exercise the race) *)
 Definition racy (cases : list lcase) : list (nat * nat) :=
-  index_from 0 (map (fun c => if mutex_ok (fun _ => 0) (tids_of c) (model_trace c true)
-                              then 0 else 1) cases).
+  index_from 0 (map (fun c =>
+    if accepts (rev (log (run_sched (macro (cfg_of c true)) (init (prog_of c)) (l_sched c))))
+    then 0 else 1) cases).
 
 (** ** supporting evidence: enter/exit stamps of real threads / processes.
     Intervals [(enter, exit)] (nanoseconds, shifted) must be pairwise disjoint. *)
